@@ -86,7 +86,7 @@ def gen_workload(tape):
             o["sort"] = not tape.flag("nosort", 1, 4)
             o["only_path"] = tape.flag("only_path", 1, 4)
             o["bundle"] = tape.pick([None, None, None, 1, 2, 5, "1h", "6h", "1D"], "bundle")
-            o["filters"] = gen_filters(tape) if F.uses_sat(t) else None
+            o["filters"] = gen_filters(tape, t.get("mode_in_name")) if F.uses_sat(t) else None
             o["no_files_error"] = tape.flag("nfe", 1, 2)
         elif o["op"] == "contains":
             o["q"] = gen_query(tape, "c")
@@ -136,7 +136,23 @@ def gen_query(tape, label):
     return [gen_point(tape, label + "0"), gen_point(tape, label + "1")]
 
 
-def gen_filters(tape):
+def gen_filters(tape, two=False):
+    f = _gen_filters1(tape)
+    if two and tape.flag("filter_mode", 1, 2):
+        f = dict(f or {})
+        c = tape.choice(3, "mfilt")
+        v = tape.pick(F.MODES, "mv")
+        if c == 0:
+            f["mode"] = v
+        elif c == 1:
+            f["!mode"] = v
+        else:
+            # black list entries for both placeholders, second one first
+            f = {"!mode": v, **{k: x for k, x in f.items()}}
+    return f or None
+
+
+def _gen_filters1(tape):
     c = tape.choice(6, "filt")
     if c <= 1:
         return None
@@ -264,11 +280,12 @@ class Run:
             return True
         for k, v in filters.items():
             vals = v if isinstance(v, list) else [v]
+            have = f.get(k.lstrip("!"))
             if k.startswith("!"):
-                if f["sat"] in vals:
+                if have in vals:
                     return False
             else:
-                if f["sat"] not in vals:
+                if have not in vals:
                     return False
         return True
 
@@ -417,6 +434,8 @@ class Run:
         if filters:
             self.probe("filter_black" if any(k.startswith("!") for k in filters)
                        else "filter_white")
+            if len(filters) > 1:
+                self.probe("filter_two_placeholders")
         exp = self.expected(s_eff, e_eff, filters)
         kw = dict(sort=o["sort"], only_path=o["only_path"], bundle=o["bundle"],
                   filters=filters, no_files_error=o["no_files_error"])
@@ -501,7 +520,8 @@ class Run:
                         "C01/find/times",
                         f"{os.path.basename(x.path)}: times {x.times} expected {c}"))
                     break
-                if f["sat"] is not None and x.attr.get("sat") != f["sat"]:
+                if (f["sat"] is not None and x.attr.get("sat") != f["sat"]) or \
+                        (f.get("mode") is not None and x.attr.get("mode") != f["mode"]):
                     self.V.append(_viol("C01/find/attr",
                                         f"{os.path.basename(x.path)}: attr {x.attr}"))
                     break
